@@ -8,7 +8,7 @@ filtered.
 
 from hypothesis import strategies as st
 
-STEPS = [600, 900, 1200, 1800, 2400, 3600, 7200]
+STEPS = [600, 900, 1200, 1800, 2400, 3600, 7200, 86400]  # incl. daily data
 ZONES = ['UTC', 'UTC', 'Etc/GMT-7', 'Etc/GMT+5', 'Africa/Lagos',
          'Asia/Kolkata', 'Etc/GMT-12']
 T0_BASE = 1388534400  # 2014-01-01 00:00:00 UTC, a multiple of 7200
